@@ -359,3 +359,22 @@ class Conn:
     def truth(self):
         """[(dir, stream bytes)] one entry per datagram that carried stream data"""
         return [(g.dir, g.stream) for g in self.dgrams if g.stream]
+
+
+# ---- receiver side, used only to anchor the model on real captures (mc/validate.py) -------------------
+
+def unprotect(keys: PKeys, packet: bytes, pn_offset: int, long: bool, largest_pn: int = -1):
+    """removes header protection and opens the AEAD (raises on a bad tag).  `packet` must end where the
+    protected packet ends.  Returns (packet number, plaintext payload)."""
+    from .rfc9000 import decode_packet_number
+    sample = packet[pn_offset + 4:pn_offset + 20]
+    m = keys.mask(sample)
+    first = packet[0] ^ (m[0] & (0x0F if long else 0x1F))
+    pn_len = (first & 3) + 1
+    pn_bytes = bytes(a ^ b for a, b in zip(packet[pn_offset:pn_offset + pn_len], m[1:1 + pn_len]))
+    trunc = int.from_bytes(pn_bytes, "big")
+    pn = decode_packet_number(largest_pn if largest_pn >= 0 else 0, trunc, 8 * pn_len) if largest_pn >= 0 else trunc
+    hdr = bytes([first]) + packet[1:pn_offset] + pn_bytes
+    nonce = bytes(a ^ b for a, b in zip(keys.iv, pn.to_bytes(12, "big")))
+    pt = keys.aead.decrypt(nonce, packet[pn_offset + pn_len:], hdr)
+    return pn, pt, first
